@@ -131,7 +131,7 @@ func NewPool(n int, args ...string) *Pool {
 
 func (p *Pool) spawn() (*worker, error) {
 	cmd := exec.Command(os.Args[0], p.Args...)
-	cmd.Env = append(os.Environ(), "GOMAXPROCS=2", "VERIF_WORKER=1")
+	cmd.Env = append(os.Environ(), "GOMAXPROCS=1", "VERIF_WORKER=1")
 	cmd.Env = append(cmd.Env, p.Env...)
 	in, err := cmd.StdinPipe()
 	if err != nil {
